@@ -39,6 +39,8 @@ pub struct Profile {
     pub alias_use: bool,
     /// the peer (almost) always announces a small Receive Maximum (v5)
     pub rm_small: bool,
+    /// Maximum Packet Size limits are placed at size-1 / size / size+1 / size+3 of a packet the history will send or receive
+    pub mps_near: bool,
 }
 
 impl Profile {
@@ -66,6 +68,7 @@ impl Profile {
             acks_live_only: false,
             alias_use: true,
             rm_small: false,
+            mps_near: false,
         }
     }
 }
@@ -259,6 +262,39 @@ fn segment(p: Profile, cfg: ConnCfg, as_client: bool, hostile: BoxedStrategy<Op>
                     ka.p.rm = Some(1 + small % 3);
                 } else {
                     ca.p.rm = Some(1 + small % 3);
+                }
+            }
+            if p.mps_near && v5 {
+                // size of a packet this history will try to send / will receive
+                let local = body.iter().find_map(|o| match o {
+                    Op::Publish { qos, topic, alias, plen, retain, .. } => Some(publish_ap(V::V5, *qos, false, *retain, *topic, *alias, Some(1), payload_of(1, *plen))),
+                    Op::Subscribe { n, .. } => Some(AP::Subscribe { v: V::V5, pid: 1, props: vec![], entries: (0..(*n % 3 + 1)).map(|i| (TOPICS[i as usize].to_string(), i % 3)).collect() }),
+                    _ => None,
+                });
+                let inbound = body.iter().find_map(|o| match o {
+                    Op::PeerPublish { qos, topic, alias, plen, dup, .. } => Some(publish_ap(V::V5, *qos, *dup, false, *topic, *alias, Some(1), payload_of(1, *plen))),
+                    _ => None,
+                });
+                let delta = [0i64, -1, 1, 3, 0, 2, -2, 0][(small % 8) as usize];
+                if let Some(ap) = local {
+                    let sz = crate::refcodec::encode(&ap, cfg.idw).len() as i64 + delta;
+                    let lim = Some(sz.max(1) as u32);
+                    // the limit for what this object sends is announced by the peer
+                    if as_client {
+                        ka.p.mps = lim;
+                    } else {
+                        ca.p.mps = lim;
+                    }
+                }
+                if let (Some(ap), true) = (inbound, small % 2 == 0) {
+                    let sz = crate::refcodec::encode(&ap, cfg.idw).len() as i64 + delta;
+                    let lim = Some(sz.max(1) as u32);
+                    // the limit for what this object receives is announced by itself
+                    if as_client {
+                        ca.p.mps = lim;
+                    } else {
+                        ka.p.mps = lim;
+                    }
                 }
             }
             let mut ops = pre;
